@@ -83,8 +83,9 @@ def main():
     ffi = R.fn_body(runtime, "files_for_invocation")
     write_arm = None
     if ffi is not None:
-        m = re.search(r'"write"\s*=>\s*\{', ffi)
-        n = re.search(r'"apply_patch"\s*=>', ffi)
+        # the arms may list further names (`"write" | "write_file" =>`): which names, is tools/gen/toolnames.py's business
+        m = re.search(r'"write"(?:\s*\|\s*"[^"]*")*\s*=>\s*\{', ffi)
+        n = re.search(r'"apply_patch"(?:\s*\|\s*"[^"]*")*\s*=>', ffi)
         if m and n and m.end() < n.start():
             write_arm = ffi[m.end():n.start()]
     if write_arm is None:
